@@ -528,14 +528,14 @@ fn async_hostile(c: &mut Case) {
 }
 
 pub fn run(ctx: &Ctx, evidence: Option<&PathBuf>) -> i32 {
-    ctx.run_cases("async-hostile", ctx.size(6_000, 600_000), async_hostile);
+    ctx.run_cases("async-hostile", ctx.size3(6_000, 600_000, 3), async_hostile);
     let sweep_n = match ctx.scale {
         Scale::Full => 1024,
         Scale::San => 256,
-        Scale::Miri => 6,
+        Scale::Miri => 2,
     };
     ctx.run_fixed("header-sweep", sweep_n, header_sweep);
-    let n = ctx.size(25_000, 2_500_000);
+    let n = ctx.size3(25_000, 2_500_000, 6);
     let mutated = |c: &mut Case| {
         let (mut bytes, buffer) = valid_connection(&mut c.rng);
         let n_mut = c.rng.below(5);
@@ -555,7 +555,7 @@ pub fn run(ctx: &Ctx, evidence: Option<&PathBuf>) -> i32 {
     };
     ctx.run_fixed("mutated-directed", ctx.dn(300), mutated);
     ctx.run_cases("mutated", n, mutated);
-    ctx.run_cases("random-bytes", ctx.size(3_000, 300_000), |c| {
+    ctx.run_cases("random-bytes", ctx.size3(3_000, 300_000, 4), |c| {
         let mut bytes = c.rng.rbytes(400);
         // bias: plausible version byte so that the first header is not rejected at once
         if !bytes.is_empty() && c.rng.chance(3, 4) {
